@@ -262,6 +262,7 @@ main(int argc, char** argv)
       printf("bad-op");
     }
     alarm(0);
+    va.fail_at = -1;   // "failnext" applies to the one operation that follows it
     fputc('\n', stdout);
   }
   if (hash) zix_hash_free(hash);
